@@ -5,6 +5,20 @@ HERE = os.path.dirname(os.path.dirname(os.path.abspath(__file__)))
 ids = [json.loads(l)["id"] for l in open(os.path.join(HERE, "properties.jsonl"))]
 
 CLAIMS = {
+ "C11": dict(
+   text="The learning switch's decision LearningSwitch._handle_PacketIn is proved as one step over the abstract table "
+        "(address -> port) for ALL source / destination addresses, ingress ports, ethertypes, transparent flag and buffered or "
+        "unbuffered packet-ins, with 0..2 further table entries and the destination unknown / known on the ingress port / "
+        "known elsewhere: the source is learnt on the ingress port and nothing else changes; LLDP and bridge-filtered "
+        "destinations are dropped (the buffer released by an action-less packet-out); multicast and unknown destinations are "
+        "flooded with the buffer id or the frame and the ingress port; a destination on the ingress port gets an action-less "
+        "flow-mod naming the buffer (never sent back); a destination known elsewhere gets ONE flow-mod with exactly one output "
+        "action to the port learnt for it (10 s idle / 30 s hard) carrying the packet-in; in every branch a buffered "
+        "packet-in's buffer id is named in the single message sent.",
+   note="only the controller-side decision is proved here; delivery in a network is the composition with the datapath "
+        "contracts C12 (actions / flood rules), C04 (flow-mod), C18 (buffers), C03 (lookup) - an argument, not a machine-checked "
+        "lemma; table size bounded (reported so); ofp_match.from_packet, Connection.send and time are callees.",
+   ref="7/C11"),
  "C09": dict(
    text="Per-operation contracts over the registry (dpid -> connection) and the connection's phase, for two datapath ids and the "
         "registry entry of the connection's dpid absent / itself / another connection: _finish_connecting registers the "
